@@ -56,16 +56,7 @@ Fixpoint nullable_only (r : re) : bool :=
   | _ => false
   end.
 
-(* minimum length of a match *)
-Fixpoint minlen (r : re) : nat :=
-  match r with
-  | Lit _ | NotLit _ | Any | Set_ _ _ => 1
-  | Cat a b => minlen a + minlen b
-  | Alt a b => Nat.min (minlen a) (minlen b)
-  | Group _ a => minlen a
-  | Rep lo _ a => lo * minlen a
-  | _ => 0
-  end.
+(* (minimum length of a match: Regex/CapBody.v:minlen) *)
 
 (* does group n occur in r? *)
 Fixpoint mentions (n : nat) (r : re) : bool :=
@@ -120,3 +111,16 @@ Fixpoint ends_at_end (n : nat) (r : re) : bool :=
 (* the value cap_get sees: most recent entry *)
 Definition new_entry (c c' : caps) (n : nat) (sp : nat * nat) : Prop :=
   exists pre, c' = pre ++ c /\ cap_get n pre = Some sp.
+
+(* the pattern matches (possibly the empty string) at every position, whatever follows:
+   sufficient for "re.match(pattern, w) is never None" *)
+Fixpoint always_matches (r : re) : bool :=
+  match r with
+  | Eps => true
+  | Rep O _ _ => true
+  | Cat a b => always_matches a && always_matches b
+  | Alt a b => always_matches a || always_matches b
+  | Group _ a => always_matches a
+  | Look a => always_matches a
+  | _ => false
+  end.
